@@ -11,7 +11,7 @@ EXTENDS ChainSync
 
 (* the recorded position (number AND hash) is a block of the canonical chain *)
 OnCanon(blk, canon, sy) ==
-    sy.has /\ sy.hash >= 1 /\ sy.hash <= Len(blk) /\ blk[sy.hash].num = sy.num /\ sy.hash \in AncSelf(blk, canon)
+    sy.has /\ Valid(blk, sy.hash) /\ NumOf(blk, sy.hash) = sy.num /\ IsAnc(blk, sy.hash, canon)
 
 (* the rows a key-upserting table holds for a set of events: the last event per key *)
 Latest(rows) == {r \in rows : \A q \in rows : q.key = r.key => q.num <= r.num}
@@ -34,7 +34,7 @@ C15_Atomic(blk, first, a, b) ==
         sb == b.synced
         lo == IF sa.has THEN sa.num + 1 ELSE first
     IN \/ (* forward, to a block X: the events of X's chain in (old, new] arrive with it *)
-          /\ sb.has /\ sb.hash >= 1 /\ sb.hash <= Len(blk) /\ blk[sb.hash].num = sb.num
+          /\ sb.has /\ Valid(blk, sb.hash) /\ NumOf(blk, sb.hash) = sb.num
           /\ sb.num >= lo
           /\ {r \in b.stored : r.num >= lo} = Latest(EventsIn(blk, sb.hash, lo, sb.num))
           /\ {r \in b.stored : r.num < lo} \subseteq a.stored
